@@ -89,14 +89,26 @@ EntriesLive(D, L) == (D.entry \cap D.files) \subseteq L.files
 (* Symbol layer: a graph G                                                 *)
 (*  G.files, G.entry, G.seFalse (annotated files), G.ts, G.ignoreAnn,        *)
 (*  G.part[f] : sequence of                                                  *)
-(*     [declares, uses, effect, removable, force, recs, probe]               *)
+(*     [declares, uses, effect, removable, force, recs, probe, entryExp]     *)
 (*       recs : set of [kind |-> "stmt"|"require"|"dynamic", to |-> file]    *)
 (*  G.imp[f]  : set of [local, from, name]       import {name as local} from *)
 (*  G.exp[f]  : set of [kind, name, local, from, fromName, part]             *)
 (*       kind "local": export {local as name}; "from": export {fromName as   *)
 (*       name} from; "star": export * from; part = index of the statement    *)
+(*  G.cjs     : the CommonJS files (no static exports; wrapped in __commonJS)  *)
+(*  a part with entryExp = TRUE is the entry point's dummy part of step 6: it  *)
+(*  depends on everything the entry point exports                             *)
 
 NoRes == [ok |-> FALSE, file |-> 0, name |-> "", via |-> {}]
+CjsName == "*cjs"   \* a binding of a CommonJS file: a property read on the required namespace, no declaring part
+
+\* the statement-level import records of a part / a file
+StmtRecsOf(G, f, i) == {r.to : r \in {q \in G.part[f][i].recs : q.kind = "stmt"}}
+StmtTargets(G, f) == UNION {StmtRecsOf(G, f, i) : i \in DOMAIN G.part[f]}
+\* the import / re-export statements of file f that name file g: they DECLARE the
+\* import symbols in f (matchImportWithExport adds them to importData.ReExports:
+\* "the statement(s) that declared this import symbol in the original file")
+ImportStmtParts(G, f, g) == {<<f, i>> : i \in {j \in DOMAIN G.part[f] : g \in StmtRecsOf(G, f, j)}}
 
 RECURSIVE ResolveExport(_, _, _, _), ResolveLocal(_, _, _, _)
 
@@ -108,10 +120,13 @@ ResolveLocal(G, f, n, fuel) ==
        THEN [ok |-> TRUE, file |-> f, name |-> n, via |-> {}]
   ELSE LET bs == {b \in G.imp[f] : b.local = n} IN
        IF bs = {} THEN NoRes
-       ELSE LET b == CHOOSE b \in bs : TRUE IN ResolveExport(G, b.from, b.name, fuel - 1)
+       ELSE LET b == CHOOSE b \in bs : TRUE
+                r == ResolveExport(G, b.from, b.name, fuel - 1)
+            IN IF r.ok THEN [r EXCEPT !.via = @ \cup ImportStmtParts(G, f, b.from)] ELSE NoRes
 
 ResolveExport(G, f, en, fuel) ==
   IF fuel = 0 \/ f \notin G.files THEN NoRes
+  ELSE IF f \in G.cjs THEN [ok |-> TRUE, file |-> f, name |-> CjsName, via |-> {}]
   ELSE LET locals == {e \in G.exp[f] : e.kind = "local" /\ e.name = en}
            froms  == {e \in G.exp[f] : e.kind = "from" /\ e.name = en}
            stars  == {e \in G.exp[f] : e.kind = "star"}
@@ -136,21 +151,64 @@ DeclDeps(G, f, i) ==
 PassDeps(G, f, i) ==
   UNION {LET r == ResolveLocal(G, f, n, Fuel(G)) IN IF r.ok THEN r.via ELSE {} : n \in G.part[f][i].uses}
 
-\* an entry point depends on the declarations of all its exports: modelled by a
-\* pseudo use in a trailing non-removable part, so nothing special is needed here
-
 SeFree(G) == IF G.ignoreAnn THEN {} ELSE G.seFalse
 
+\* --- wrap kinds (graph.WrapNone / WrapESM / WrapCJS), a derived graph attribute:
+\* a CommonJS file is wrapped in __commonJS; an ES module that is the target of
+\* require() or of import() (no code splitting) is wrapped lazily in __esm
+\* (init_x), and so is everything a wrapped file imports by statement
+LazyTargets(G) ==
+  UNION {UNION {{r.to : r \in {q \in G.part[f][i].recs : q.kind \in {"require", "dynamic"}}} : i \in DOMAIN G.part[f]} : f \in G.files}
+RECURSIVE WrapFix(_, _)
+WrapFix(G, W) ==
+  LET N == (W \cup UNION {StmtTargets(G, f) : f \in W}) \cap G.files
+  IN IF N = W THEN W ELSE WrapFix(G, N)
+Wrapped(G) == WrapFix(G, (LazyTargets(G) \cup G.cjs) \cap G.files)
+WrapOfIn(G, W, f) == IF f \in G.cjs THEN "cjs" ELSE IF f \in W THEN "esm" ELSE "none"
+WrapOf(G, f) == WrapOfIn(G, Wrapped(G), f)
+
+\* the names an entry point exports (export * expanded)
+NameUniverse(G) ==
+  UNION {UNION {G.part[f][i].declares : i \in DOMAIN G.part[f]} : f \in G.files}
+  \cup UNION {{e.name : e \in G.exp[f]} : f \in G.files}
+ExportNames(G, f) ==
+  IF f \in G.cjs THEN {}
+  ELSE {n \in NameUniverse(G) \ {""} : ResolveExport(G, f, n, Fuel(G)).ok
+                                        /\ (\E e \in G.exp[f] : e.kind = "star" \/ e.name = n)}
+
+\* --- the EDGE KINDS of scanImportsAndExports step 6 (a `drop` set names the
+\* kinds a mutated linker leaves out; the design is drop = {}):
+\*  useDecl       part using an import      -> the parts declaring the bound symbol
+\*  usePass       part using an import      -> importData.ReExports: the import / re-export statements passed, the file's own import statement included
+\*  entryDecl     entry point dummy part    -> the parts declaring every exported symbol
+\*  entryPass     entry point dummy part    -> importData.ReExports in OTHER files
+\*  entryPassSelf entry point dummy part    -> importData.ReExports in the entry point itself (its own `export {x} from` / `import {x}` statement)
+\*  wrapUse       part with an import statement of a WRAPPED file -> the wrapper (init_x / require_x) of that file
+\*  lazyFile      part with require() / import() -> the wrapper and the exports object of the target
+EdgeKindNames == {"useDecl", "usePass", "entryDecl", "entryPass", "entryPassSelf", "wrapUse", "lazyFile"}
+
+EntryExpDeps(G, f, drop) ==
+  UNION {LET r == ResolveExport(G, f, n, Fuel(G)) IN
+         IF ~r.ok THEN {}
+         ELSE (IF "entryDecl" \in drop THEN {} ELSE DeclParts(G, r.file, r.name))
+              \cup {v \in r.via : IF v[1] = f THEN "entryPassSelf" \notin drop ELSE "entryPass" \notin drop}
+         : n \in ExportNames(G, f)}
+
 \* projection of the symbol layer onto the dependency layer (what the linker builds)
-DepGraph(G) ==
+DepGraphM(G, drop) ==
+  LET W == Wrapped(G) IN
   [files |-> G.files, entry |-> G.entry, seFree |-> SeFree(G), ts |-> G.ts,
    part |-> [f \in G.files |->
        [i \in DOMAIN G.part[f] |->
           LET p == G.part[f][i] IN
           [removable |-> p.removable, force |-> p.force,
-           deps  |-> DeclDeps(G, f, i) \cup PassDeps(G, f, i),
-           fdeps |-> {r.to : r \in {q \in p.recs : q.kind \in {"require", "dynamic"}}},
-           srecs |-> {r.to : r \in {q \in p.recs : q.kind = "stmt"}}]]]]
+           deps  |-> (IF "useDecl" \in drop THEN {} ELSE DeclDeps(G, f, i))
+                     \cup (IF "usePass" \in drop THEN {} ELSE PassDeps(G, f, i))
+                     \cup (IF p.entryExp THEN EntryExpDeps(G, f, drop) ELSE {}),
+           fdeps |-> (IF "lazyFile" \in drop THEN {} ELSE {r.to : r \in {q \in p.recs : q.kind \in {"require", "dynamic"}}})
+                     \cup (IF "wrapUse" \in drop THEN {} ELSE {g \in StmtRecsOf(G, f, i) : WrapOfIn(G, W, g) # "none"}),
+           srecs |-> StmtRecsOf(G, f, i)]]]]
+DepGraph(G) == DepGraphM(G, {})
 
 LiveOf(G) == Live(DepGraph(G))
 
@@ -172,15 +230,39 @@ EffectsKeptOn(G, L) ==
   \A f \in ReachedForEffects(G) \cup L.files : \A i \in DOMAIN G.part[f] :
      G.part[f][i].effect => <<f, i>> \in L.parts
 
+\* an import / re-export statement that names a WRAPPED file is what becomes the
+\* `init_x()` / `require_x()` call: it carries an initialiser obligation
+InitStmt(G, v) == \E g \in StmtRecsOf(G, v[1], v[2]) : WrapOf(G, g) # "none"
+
 \* a live use resolves to a declaration all of whose declaring parts are live,
-\* and the re-export statements in between are live too
+\* and the statements in between that initialise a wrapped file are live too
 NoDanglingUseOn(G, L) ==
   \A r \in L.parts : \A n \in G.part[r[1]][r[2]].uses :
      LET res == ResolveLocal(G, r[1], n, Fuel(G)) IN
-       res.ok => /\ DeclParts(G, res.file, res.name) # {}
+       res.ok => /\ (res.file \in G.cjs \/ DeclParts(G, res.file, res.name) # {})
                  /\ DeclParts(G, res.file, res.name) \subseteq L.parts
                  /\ res.file \in L.files
-                 /\ res.via \subseteq L.parts
+                 /\ \A v \in res.via : InitStmt(G, v) => v \in L.parts
+\* the design keeps ALL statements in between live (stricter than needed)
+PassStmtsLiveOn(G, L) ==
+  \A r \in L.parts : \A n \in G.part[r[1]][r[2]].uses :
+     LET res == ResolveLocal(G, r[1], n, Fuel(G)) IN res.ok => res.via \subseteq L.parts
+
+\* EXPORTED BINDINGS ARE INITIALISED: whatever an entry point exports resolves
+\* to a live declaration in a live file, and every statement on the way that
+\* must call the wrapper of a wrapped file (init_x / require_x) is live --
+\* otherwise the bundle exports a binding that was never initialised
+ExportsInitialisedOn(G, L) ==
+  \A e \in G.entry \cap G.files : \A n \in ExportNames(G, e) :
+     LET res == ResolveExport(G, e, n, Fuel(G)) IN
+       res.ok => /\ (res.file \in G.cjs \/ DeclParts(G, res.file, res.name) # {})
+                 /\ DeclParts(G, res.file, res.name) \subseteq L.parts
+                 /\ res.file \in L.files
+                 /\ \A v \in res.via : InitStmt(G, v) => v \in L.parts
+\* (design, stricter) all of them are live
+ExportPassStmtsLiveOn(G, L) ==
+  \A e \in G.entry \cap G.files : \A n \in ExportNames(G, e) :
+     LET res == ResolveExport(G, e, n, Fuel(G)) IN res.ok => res.via \subseteq L.parts
 
 DesignLiveClosedOn(D, L) ==
   LiveClosed(D, L) /\ ImportsKept(D, L) /\ UnremovableKept(D, L) /\ EntriesLive(D, L) /\ ClosedUnder(D, L)
@@ -200,13 +282,20 @@ ModeMonotoneOn(D, L) ==
   /\ LeqLive(L, Live([D EXCEPT !.seFree = {}]))
 
 \* what MUST survive: effectful parts that stay live under the IDEAL sound
-\* classifier (removable = ~effect) with tree shaking on.  A sideEffects:false
+\* classifier (removable = ~effect; the entry point's dummy part is never
+\* removable) with tree shaking on.  A sideEffects:false
 \* file that is only passed through by a re-export (none of its own
 \* declarations is bound by a live use) may vanish as a whole: the property
 \* lets annotated modules disappear.
 Ideal(G) == [G EXCEPT !.ts = TRUE,
-               !.part = [f \in G.files |-> [i \in DOMAIN G.part[f] |-> [G.part[f][i] EXCEPT !.removable = ~G.part[f][i].effect]]]]
-DeclBound(G, L) == {d[1] : d \in UNION {DeclDeps(G, r[1], r[2]) : r \in L.parts}}
+               !.part = [f \in G.files |-> [i \in DOMAIN G.part[f] |-> [G.part[f][i] EXCEPT !.removable = ~G.part[f][i].effect /\ ~G.part[f][i].entryExp]]]]
+BoundFiles(G, f, i) ==
+  {d[1] : d \in DeclDeps(G, f, i)}
+  \cup UNION {LET r == ResolveLocal(G, f, n, Fuel(G)) IN IF r.ok THEN {r.file} ELSE {} : n \in G.part[f][i].uses}
+  \cup (IF G.part[f][i].entryExp
+        THEN UNION {LET r == ResolveExport(G, f, n, Fuel(G)) IN IF r.ok THEN {r.file} ELSE {} : n \in ExportNames(G, f)}
+        ELSE {})
+DeclBound(G, L) == UNION {BoundFiles(G, r[1], r[2]) : r \in L.parts}
 MustKeepParts(G) ==
   LET I == Ideal(G) L == LiveOf(I)
       passOnly == (L.files \cap SeFree(G)) \ (DeclBound(I, L) \cup G.entry)
